@@ -9,3 +9,13 @@ MUTANTS["C01"] = [
     ("idft_no_conj", "lentil/fourier.py", "    np.conj(F, out=F)\n", "    pass\n"),
     ("idft_unitary_divN", "lentil/fourier.py", "    if unitary:\n        # the unitary", "    if False:\n        # the unitary"),
 ]
+MUTANTS["C06"] = [
+    ("insert_center", "lentil/field.py", "field_shifted_ul = (out_shape // 2) - (field_shape // 2) + field_offset", "field_shifted_ul = (out_shape // 2) - ((field_shape - 1) // 2) + field_offset"),
+    ("insert_noclip_right", "lentil/field.py", "        if out_cmax > out_shape[1]:\n            field_cmax -= out_cmax - out_shape[1]", "        if out_cmax > out_shape[1]:\n            field_cmax -= 0"),
+    ("merge_offset", "lentil/field.py", "    return rmin + nrow//2, cmin + ncol//2\n\n\ndef overlap", "    return rmin + (nrow-1)//2, cmin + ncol//2\n\n\ndef overlap"),
+    ("disjoint_norestart", "lentil/field.py", "            fields.pop(n)\n            return _disjoint(fields)", "            fields.pop(n)\n            break"),
+    ("intersect_strict", "lentil/extent.py", "return armin <= brmax and", "return armin < brmax and"),
+    ("intersection_shift", "lentil/extent.py", "    ncol = cmax - cmin + 1\n    return rmin + nrow//2, cmin + ncol//2", "    ncol = cmax - cmin + 1\n    return rmin + nrow//2, cmin + (ncol-1)//2"),
+    ("insert_weight_ignored", "lentil/field.py", "out[out_slice] += (field.data[field_slice] * weight)", "out[out_slice] += (field.data[field_slice])"),
+    ("mul_scalar_offset", "lentil/field.py", "            b_data = np.broadcast_to(b_data, a_data.shape)\n            b_offset = a_offset", "            b_data = np.broadcast_to(b_data, a_data.shape)"),
+]
